@@ -370,6 +370,13 @@ class DecodeTask(Task):
             if "queue" in env.path or env.path.endswith("_recv_pdu"):
                 g_["queue_used"] = f"{env.path}.{method}"
                 return None
+            if env.path.startswith("new:") and method == "to_primitive":
+                # should the function itself try the conversion: it succeeds or raises, as the PDU's content decides
+                I.trace.append(Ev("pdu.to_primitive", (env,)))
+                if I.choose(2, "to_primitive") == 1:
+                    g_["conversion_raised"] = True
+                    raise PyRaise(ExcVal("ValueError", ("invalid parameter value",)))
+                return Env("primitive")
             if env.path.startswith("new:") and method == "decode":
                 I.trace.append(Ev("pdu.decode", (env, args[0])))
                 if I.choose(2, "decode") == 1:
@@ -382,7 +389,12 @@ class DecodeTask(Task):
         P = f"C02/{DECODE}"
         names = PDU_KINDS
         if kind == "raise":
-            I.ob(f"{P}/raises-only-when-decode-raises", raised["v"], detail=repr(val))
+            I.ob(f"{P}/raises-only-when-decode-raises", raised["v"] or bool(g_.get("conversion_raised")), detail=repr(val))
+            if not raised["v"]:
+                # the PDU was received and decoded: that it crossed the wire is notified even if it is refused afterwards
+                evs_ = [e.args[0] for e in I.trace if e.name == "evt"]
+                I.ob(f"C27/{DECODE}/a-PDU-that-was-decoded-is-notified-as-received-even-if-it-is-refused-afterwards",
+                     evs_.count("EVT_PDU_RECV") == 1, detail=repr(evs_))
             return
         # what _read_pdu_data relies on (it uses this function by contract): the pair (decoded PDU, its event) is RETURNED and
         # nothing is queued here - the caller queues the event only after the conversion check
